@@ -34,6 +34,7 @@ package absnfs
 //@ callassert binary.Write : [granted-exact] accessAllowed == accessSpec(permClass(attrs.Mode, attrs.Uid, attrs.Gid, authCtx.EffectiveUID, authCtx.EffectiveGID, inAuxGroups(authCtx, attrs.Gid)), attrs.Mode & os.ModeDir != 0, access, curPolicy(h.server.handler).ReadOnly)
 // consequences named in the property, as separate obligations
 //@ callassert binary.Write : [subset-of-request] accessAllowed & access == accessAllowed && accessAllowed < 64
-//@ callassert binary.Write : [ro-never-modify] curPolicy(h.server.handler).ReadOnly ==> accessAllowed & 28 == 0
+// (C08 names this clause too: ACCESS never grants MODIFY, EXTEND or DELETE on a read-only export)
+//@ callassert binary.Write : [ro-never-modify] {C12, C08} curPolicy(h.server.handler).ReadOnly ==> accessAllowed & 28 == 0
 //@ callassert binary.Write : [lookup-delete-dirs-only] attrs.Mode & os.ModeDir == 0 ==> accessAllowed & 18 == 0
-//@ callassert binary.Write : [value-written] unboxed(arg2, uint32) == accessAllowed
+//@ callassert binary.Write : [value-written] {C12, C08} unboxed(arg2, uint32) == accessAllowed
